@@ -850,10 +850,104 @@ func keptDelegated(c *Check, r *RuleCtx, fi *FuncInfo, e string) []Pt {
 			}()
 			if ok {
 				out = append(out, pt)
+				continue
+			}
+			// thunk argument: the effect sits in a function literal (or is the method value itself) handed to a helper
+			// that calls that parameter on every one of its successful paths (`c.transmit(func() … { return c.cl.LMTPData(cb) }, …)`)
+			sig, _ := fn.Type().(*types.Signature)
+			for ai, a := range call.Args {
+				if sig == nil || ai >= sig.Params().Len() || (sig.Variadic() && ai >= sig.Params().Len()-1) {
+					break
+				}
+				performs := false
+				switch x := ast.Unparen(a).(type) {
+				case *ast.FuncLit:
+					for _, st := range x.Body.List {
+						switch st.(type) {
+						case *ast.ExprStmt, *ast.AssignStmt, *ast.ReturnStmt, *ast.DeclStmt, *ast.DeferStmt:
+							for _, ee := range keptEffects(p, r.Info, st) {
+								if ee == e {
+									performs = true
+								}
+							}
+						}
+					}
+				case *ast.SelectorExpr, *ast.Ident:
+					if mf, isFn := objOf(r.Info, x).(*types.Func); isFn {
+						// the method value stands for a call of that method
+						if name := keptCallName(mf); name != "" && "call:"+name == e {
+							performs = true
+						}
+					}
+				}
+				if performs && keptParamMustBeCalled(c, d, sig.Params().At(ai)) {
+					out = append(out, pt)
+					break
+				}
 			}
 		}
 	}
 	return out
+}
+
+// keptCallName: the name under which a call of fn is recorded as an effect ("" when calls of fn are not effects).
+func keptCallName(fn *types.Func) string {
+	if fn == nil || fn.Pkg() == nil {
+		return ""
+	}
+	path := fn.Pkg().Path()
+	switch {
+	case strings.HasPrefix(path, modPath):
+		rel := strings.TrimPrefix(strings.TrimPrefix(path, modPath), "/")
+		if rel == "framework/log" || rel == "framework/exterrors" || strings.HasPrefix(rel, "framework/config") || rel == "framework/address" || rel == "framework/dns" {
+			return ""
+		}
+	case keptCallPkgs[path], strings.Contains(path, "go-smtp"), strings.Contains(path, "go-message"), strings.Contains(path, "go-sasl"):
+	default:
+		return ""
+	}
+	q := qname(fn)
+	if strings.HasPrefix(path, modPath) {
+		q = strings.TrimSuffix(q, fn.Name()) + refName(fn)
+	}
+	return strings.TrimPrefix(q, modPath+"/")
+}
+
+// keptParamMustBeCalled: every successful path of d calls its function-typed parameter pv.
+func keptParamMustBeCalled(c *Check, d *FuncInfo, pv *types.Var) bool {
+	if _, isSig := pv.Type().Underlying().(*types.Signature); !isSig {
+		return false
+	}
+	must := false
+	func() {
+		defer func() { _ = recover() }()
+		r := &RuleCtx{C: c, FI: d, F: c.P.FlowOfFunc(d), Info: d.Info()}
+		var pts []Pt
+		for _, pt := range r.F.Points() {
+			n := pt.Node()
+			if n == nil {
+				continue
+			}
+			hit := false
+			inspectNoLit(n, func(x ast.Node) bool {
+				if call, ok := x.(*ast.CallExpr); ok {
+					if id, isID := ast.Unparen(call.Fun).(*ast.Ident); isID && r.Info.Uses[id] == pv {
+						hit = true
+					}
+				}
+				return true
+			})
+			if hit {
+				pts = append(pts, pt)
+			}
+		}
+		if len(pts) == 0 {
+			return
+		}
+		_, skips := r.F.Reach(Query{From: r.Entry(), Inclusive: true, Target: keptSuccess(r), Avoid: isPt(pts)})
+		must = !skips
+	}()
+	return must
 }
 
 // keptCalleeGone: the effect is a call of a maddy function that the analysed tree does not have any more.
